@@ -286,8 +286,8 @@ class C06(Check):
             count('reads', core_.reads)
             count('bytes_delivered', core_.delivered)
             count('rewinds', core_.rewinds)
-        elif src['ch'] in ('path', 'fileurl', 'http', 'pathobj'):
-            cuts = list(range(16384, len(data), 16384))
+        elif src['ch'] in ('path', 'fileurl', 'http', 'pathobj', 'bytes', 'bytesio'):
+            cuts = list(range(16384, len(data), 16384))      # iterparse asks for 16 KiB blocks
         else:
             cuts = []
         inside = [c for c in cuts if re_ <= c < len(data)]
@@ -319,6 +319,7 @@ class C06(Check):
         sig = self.judge(op, src, got, ref, incremental)
         if sig is not None:
             sig['delivery'] = 'incremental' if incremental else 'whole'
+            sig['family'] = e.family.name
             if depth == 1:
                 violations.append({'signature': sig, 'detail': {
                     'entry': case['entry'], 'doc': doc.name, 'op': op, 'src': src,
@@ -364,7 +365,7 @@ class C06(Check):
         if api in ('to_json', 'iter_decode_path'):
             d = compare_errors(g[1], r[1])
             if g[0] != r[0]:
-                base.update(clause='data')
+                base.update(clause='data', diff=data_diff(g[0], r[0]))
                 if d:
                     base['errors'] = d['clause']
                 return base
@@ -418,6 +419,23 @@ class C06(Check):
         return {'pool_entries': len(self.entries), 'pool_documents': sum(len(e.docs) for e in self.entries.values()),
                 'reference_table_entries': len(self.refs),
                 'pool_fault_documents_not_rejected_by_reference': [list(x) for x in self.not_rejected][:20]}
+
+
+def data_diff(lazy, eager):
+    """Coarse class of a decoded-data difference (part of the violation's identity)."""
+    if isinstance(lazy, dict) and isinstance(eager, dict):
+        lk, ek = set(lazy), set(eager)
+        if lk < ek and all(lazy[k] == eager[k] for k in lk):
+            return 'root-children-missing'
+        if lk == ek:
+            bad = sorted(k for k in lk if lazy[k] != eager[k])
+            return 'child-content:' + ('attribute' if all(k.startswith('@') for k in bad) else 'element')
+        return 'root-keys-differ'
+    if isinstance(lazy, list) and isinstance(eager, list):
+        if len(lazy) != len(eager):
+            return 'item-count'
+        return 'item-content'
+    return 'type'
 
 
 def _short(res):
